@@ -74,20 +74,25 @@ def scenario(reactor, inp):
 
     sys.setswitchinterval(inp.get("switchinterval", 0.0002))  # finer preemption than the 5 ms default
     lock = threading.Lock()
-    st = {"log": [], "rseq": 0, "reactor_ident": None, "in_batch": 0, "batches": []}
+    st = {"log": [], "rseq": 0, "reactor_ident": None, "in_batch": 0, "batches": [], "rid": 0, "stale": 0}
     result = {"rounds": [], "idle": None, "problems": []}
 
-    def record(tid, seq):
+    def record(rid, tid, seq):
         with lock:
+            if rid != st["rid"]:
+                st["stale"] += 1  # left over from an earlier round that was given up (already inconclusive)
+                return False
             st["log"].append((tid, seq, threading.get_ident()))
             st["in_batch"] += 1
+            return True
 
-    def record_and_spawn(tid, seq):
-        record(tid, seq)
+    def record_and_spawn(rid, tid, seq):
+        if not record(rid, tid, seq):
+            return
         with lock:
             j = st["rseq"]
             st["rseq"] += 1
-        reactor.callFromThread(record, "R", j)  # re-entrant: issued from the reactor thread
+        reactor.callFromThread(record, rid, "R", j)  # re-entrant: issued from the reactor thread
 
     # evidence only: number of our calls executed per runUntilCurrent() invocation
     real_ruc = reactor.runUntilCurrent
@@ -113,7 +118,7 @@ def scenario(reactor, inp):
             return
         reactor.callLater(0.05, tick)
 
-    def producer(tid, M, seed, go, sentinel, pace, pause_s, barrier, errors):
+    def producer(rid, tid, M, seed, go, sentinel, pace, pause_s, barrier, errors):
         rng = random.Random("%s:%s" % (seed, tid))
         go.wait()
         try:
@@ -124,16 +129,16 @@ def scenario(reactor, inp):
                 elif r < 0.15:
                     time.sleep(0)
                 if seq % REENTRANT_EVERY == 3:
-                    reactor.callFromThread(record_and_spawn, tid, seq)
+                    reactor.callFromThread(record_and_spawn, rid, tid, seq)
                 else:
-                    reactor.callFromThread(record, tid, seq)
+                    reactor.callFromThread(record, rid, tid, seq)
         except BaseException as e:
             errors.append([tid, seq, "%s: %s" % (type(e).__name__, e)])  # list.append: atomic
         # The thread's LAST call (seq == M).  It is issued when the queue is quiet (all producers
         # done, staggered) so that even a reactor that drops calls racing with a drain is likely to
         # run it and the round can be DECIDED; for a correct reactor the pause changes nothing.
         try:
-            barrier.wait(ROUND_WATCHDOG_S)
+            barrier.wait(ROUND_WATCHDOG_S + 16 * M / 400.0)
         except threading.BrokenBarrierError:
             pass
         time.sleep(0.05 + 0.03 * tid)
@@ -146,15 +151,19 @@ def scenario(reactor, inp):
         K, M, p, seed, pace = rd["K"], rd["M"], rd["p"], rd["seed"], rd.get("pace", 0.004)
         pause_s = rd.get("pause_s", 0.0005)
         with lock:
+            st["rid"] += 1
+            rid = st["rid"]
             st["log"] = []
             st["rseq"] = 0
             st["batches"] = []
+        watchdog = ROUND_WATCHDOG_S + K * M / 400.0
         done = threading.Event()
         done_r = threading.Event()
         pending = {"n": K}
 
         def sentinel(tid):
-            record(tid, M)
+            if not record(rid, tid, M):
+                return
             pending["n"] -= 1  # reactor thread only
             if pending["n"] == 0:
                 done.set()
@@ -166,14 +175,14 @@ def scenario(reactor, inp):
             with lock:
                 j = st["rseq"]
                 st["rseq"] += 1
-            record("R", j)
-            done_r.set()
+            if record(rid, "R", j):
+                done_r.set()
 
         inj = YieldInjector(codes, p=p, seed=seed)
         go = threading.Event()
         barrier = threading.Barrier(K)
         errors = []
-        threads = [threading.Thread(target=producer, args=(t, M, seed, go, sentinel, pace, pause_s, barrier, errors), daemon=True) for t in range(K)]
+        threads = [threading.Thread(target=producer, args=(rid, t, M, seed, go, sentinel, pace, pause_s, barrier, errors), daemon=True) for t in range(K)]
         inj.start()
         try:
             for t in threads:
@@ -181,7 +190,7 @@ def scenario(reactor, inp):
             go.set()
             for t in threads:
                 t.join()
-            complete = done.wait(5.0 if errors else ROUND_WATCHDOG_S)
+            complete = done.wait(5.0 if errors else watchdog)
             complete_r = complete and done_r.wait(R_WATCHDOG_S)
         finally:
             inj.stop()
@@ -316,7 +325,7 @@ def plan(ctx):
                 shapes = [(1, 1500, 0.004, 0.0005), (4, 2000, 0.5, 0.002), (4, 1000, 0.004, 0.0005), (16, 250, 0.8, 0.004)]
             else:
                 m = int(10000 * scale)
-                shapes = [(1, m, 0.004, 0.0005), (4, m, 0.5, 0.002), (4, m, 0.004, 0.0005), (16, m, 0.8, 0.004), (16, m, 0.05, 0.0005)]
+                shapes = [(1, m, 0.004, 0.0005), (4, m, 0.5, 0.002), (4, m, 0.004, 0.0005), (16, max(40, int(m * 0.3)), 0.8, 0.004), (16, m, 0.05, 0.0005)]
             rounds = [{"K": K, "M": max(40, M), "pace": pace, "pause_s": ps, "p": rng.choice([0.1, 0.25, 0.5]), "seed": rng.randrange(2 ** 31)} for K, M, pace, ps in shapes]
             jobs.append((rep * len(REACTORS) + ri, name, {"rounds": rounds, "idle_reps": IDLE_REPS}))
     return jobs
@@ -351,7 +360,7 @@ def judge(ctx, name, out):
         if rd["n_order"]:
             ctx.violation("per-thread-order", "calls issued by one thread ran out of issue order", dict(base, inversions=rd["order"], n=rd["n_order"]))
         if not rd["complete"]:
-            ctx.inconclusive("C13 %s: round K=%d M=%d did not reach its sentinels within %ds (%d/%d executed)" % (name, rd["K"], rd["M"], ROUND_WATCHDOG_S, rd["executed"], rd["planned"]))
+            ctx.inconclusive("C13 %s: round K=%d M=%d did not reach its sentinels within its watchdog (%d/%d executed)" % (name, rd["K"], rd["M"], rd["executed"], rd["planned"]))
             continue
         ctx.count("rounds_decided")
         if rd["n_lost"]:
